@@ -385,8 +385,8 @@ func (p *program) parseArgs(args []string) error {
 	}
 
 	p.packages = p.flagSet.Args()
-	p.filters.enable = strings.Split(*enable, ",")
-	p.filters.disable = strings.Split(*disable, ",")
+	p.filters.enable = splitList(*enable)
+	p.filters.disable = splitList(*disable)
 
 	if p.shorterErrLocation {
 		wd, err := os.Getwd()
@@ -399,6 +399,16 @@ func (p *program) parseArgs(args []string) error {
 	}
 
 	return nil
+}
+
+// splitList splits a comma-separated flag value; like the analyzer front-end
+// it ignores whitespace around the items ("a, b" lists a and b).
+func splitList(s string) []string {
+	parts := strings.Split(s, ",")
+	for i := range parts {
+		parts[i] = strings.TrimSpace(parts[i])
+	}
+	return parts
 }
 
 func addTrailingSlash(s string) string {
